@@ -163,9 +163,12 @@ PROPS = {
     },
     "C06": {
         "module": "ZenonVerif.Props.C06",
-        "streams": [S("vdb", 400, 20000, arg="mix=pop")],
+        "streams": [S("vdb", 400, 20000, arg="mix=pop"), S("ledger", 40, 2000), S("sync-batches", 220, 6000, timeout=3000)],
         "rule": VDB_RULE + "; pop-heavy mix: views are opened before a branch switch and re-read after it",
-        "partial": "pool-after-switch and consensus statistics after a switch are covered by the two-node sync stream (C02), not by theorems yet",
+        "partial": "pool-after-switch and consensus statistics after a switch are monitor-only: the ledger stream rolls the producing "
+                   "node back by 1-3 momentums (pool must be empty, conservation at the pool state) and the sync-batches stream compares "
+                   "every follower that went through switches / refused batches with a fresh node fed only its current chain (state "
+                   "digest, historical views, pool, epoch statistics, delegations, weights, elected producer of every slot)",
     },
     "C05": {
         "module": "ZenonVerif.Props.C05",
